@@ -444,10 +444,15 @@ class Exec:
     # ------------------------------------------------------------- symbolic
     def fresh_val(self, st, ty, base='v'):
         if ty[0] == 'bytes':
-            n = z3.Int(fresh_name(base + '.len'))
-            a = z3.Array(fresh_name(base + '.arr'), I, I)
+            # a named constant of the byte-string sort; reads are normalised (0 outside [0, len)) and the constant
+            # itself is stated to be in normal form by a definition that is only revealed when needed (DEFS)
+            c = z3.Const(fresh_name(base), BytesS)
+            n, a = BytesS.blen(c), BytesS.barr(c)
             st.fact(n >= 0)
-            v = VBytes(n, lambda i, a=a: z3.Select(a, i))
+            i0 = z3.Int(fresh_name('bi'))
+            DEFS[c.get_id()] = (c, c == BytesS.mkb(n, z3.Lambda([i0], z3.If(z3.And(0 <= i0, i0 < n), z3.Select(a, i0), 0))), [])
+            INPUT_BYTES[c.get_id()] = c
+            v = VBytes(n, lambda i, a=a, n=n: z3.If(z3.And(0 <= i, i < n), z3.Select(a, i), 0), term=c)
             return v
         if ty[0] == 'tuple':
             v = VTuple([self.fresh_val(st, t, base) for t in ty[1]])
